@@ -219,7 +219,7 @@ def _single_loader(L, xp, tags, feats=None, image=None):
 def _collect(loader, xp):
     """(inside explore) compute every loading task and run one mapping-task round; returns raw records"""
     tasks = loader.construct_loading_tasks(backend=xp)
-    recs = [t.compute() for t in tasks]
+    recs = stubs.compute_together(tasks)
     fn = Recorder2()
     mol = loader.molecules
     mt = loader.construct_mapping_tasks(fn, "CONST", var_kwarg=dict(quaternion=mol.quaternion(), pos=mol.pos), extra=7)
